@@ -78,6 +78,9 @@ class LazyList:
                 position.step or 1,
             )
             if stop is None:
+                if step < 0 or (start or 0) < 0:
+                    # counted from the end: only meaningful for finite lists
+                    return LazyList(self.listify()[position])
 
                 @lazylist
                 def infinite_index():
@@ -89,13 +92,11 @@ class LazyList:
                 return infinite_index()
             else:
                 ret = []
-                if step < 0:
-                    return LazyList(
-                        itertools.islice(self.listify(), start, stop, step)
-                    )
-                if stop < 0:
-                    stop = len(self) + stop
+                if step < 0 or stop < 0 or (start or 0) < 0:
+                    return self.listify()[position]
                 for i in range(start or 0, stop, step):
+                    if not self.has_ind(i):
+                        break
                     ret.append(self[i])
                 return ret
         else:
